@@ -7,15 +7,19 @@ Local Open Scope Z_scope.
 Ltac Zify.zify_post_hook ::= Z.div_mod_to_equations.
 
 Ltac evr := cbn [eval lookup update set_var String.eqb Ascii.eqb Bool.eqb vars inb outb truth cast binop_int binop_uint is_shift b2z fst snd negb
-                 budget_var fail_var strm_var stream_of set_stream];
+                 budget_var fail_var strm_var cells_var stream_of set_stream];
   change (0 =? 0) with true; change (1 =? 0) with false; cbn [negb b2z].
 Ltac evcr := cbn [prog_env eval_args callee_init finish_call copy_in copy_out try_update update lookup combine map app String.append
-                 String.eqb Ascii.eqb Bool.eqb fparams flocals fbody vars inb outb budget_var fail_var strm_var cell_token List.length Nat.eqb eval set_var cast
+                 String.eqb Ascii.eqb Bool.eqb fparams flocals fbody vars inb outb budget_var fail_var strm_var cells_var cell_token List.length Nat.eqb eval set_var cast
                  prog_sbdf_swap_le prog_sbdf_read_int32 prog_sbdf_read_string prog_sbdf_str_create_len prog_sbdf_str_destroy prog_sbdf_dispose_array
                  truth binop_int b2z negb stream_of set_stream].
 
+Section WithCells.
+(* the cell heap (structs) is carried along untouched *)
+Variable hc : list (option (list val)).
+
 Definition ri2 (fv pv cell bv : val) (k : Z) (sx m o : list Z) : state :=
-  {| vars := [("f"%string, fv); ("v"%string, pv); ("*v"%string, cell); (budget_var, bv); (fail_var, VInt k); (strm_var, VBytes sx)]; inb := m; outb := o |}.
+  {| vars := [("f"%string, fv); ("v"%string, pv); ("*v"%string, cell); (budget_var, bv); (fail_var, VInt k); (strm_var, VBytes sx); (cells_var, VHeap hc)]; inb := m; outb := o |}.
 
 
 Lemma read_int32_bs2 fv pv cell bv k sx m o : is_ptr fv -> is_ptr pv -> Forall byte sx ->
@@ -43,7 +47,7 @@ Qed.
 (* ================================================================== sbdf_read_string *)
 Definition rs (fv sv e l t c1 cs bv : val) (k : Z) (sx m o : list Z) : state :=
   {| vars := [("f"%string, fv); ("s"%string, sv); ("error"%string, e); ("l"%string, l); ("t"%string, t); ("$c1"%string, c1); ("*s"%string, cs);
-              (budget_var, bv); (fail_var, VInt k); (strm_var, VBytes sx)]; inb := m; outb := o |}.
+              (budget_var, bv); (fail_var, VInt k); (strm_var, VBytes sx); (cells_var, VHeap hc)]; inb := m; outb := o |}.
 
 Lemma read_string_bs_hdr fv sv e l t c1 cs bv k sx m o : is_ptr fv -> is_ptr sv -> Forall byte sx ->
   forall st, read_int32 false sx = Err st ->
@@ -98,7 +102,7 @@ Proof.
     + pre RI. eapply bsE_seq_ret. eapply bsE_if; [evr; chk7; evr; rewrite En; reflexivity|reflexivity|]. eapply bsE_return. evr. chk7. reflexivity.
     + split; reflexivity.
   - assert (N0 : 0 <= n) by lia.
-    pose proof (str_create_len_bs s' VNull n VUndef bv k m o (repeat junk (Z.to_nat n)) N0 ltac:(unfold int_max; lia) eq_refl) as CL.
+    pose proof (str_create_len_bs s' hc VNull n VUndef bv k m o (repeat junk (Z.to_nat n)) N0 ltac:(unfold int_max; lia) eq_refl) as CL.
     pose proof (zlen_nonneg m) as Pm. pose proof (zlen_nonneg s') as Ps.
     destruct (k =? 0) eqn:Ek.
     + eexists. split.
@@ -141,7 +145,7 @@ Proof.
         assert (Sk : skipn (Z.to_nat n) s' = []) by (apply skipn_all2; unfold zlen in *; lia).
         set (mem2 := upd_range (Z.to_nat (zlen m + 4)) got mem1).
         assert (L2 : zlen mem2 = zlen m + 4 + n + 1) by (unfold mem2, zlen; rewrite upd_range_length; exact L1).
-        pose proof (str_destroy_bs [] (zlen m + 4) bv (next_fail k) mem2 o ltac:(lia)) as DS.
+        pose proof (str_destroy_bs [] hc (zlen m + 4) bv (next_fail k) mem2 o ltac:(lia)) as DS.
         eexists. split.
         -- pre RI. eapply bsE_seq; [eapply bsE_if; [evr; chk7; evr; rewrite En; reflexivity|reflexivity|apply bsE_skip]|].
            eapply bsE_seq; [eapply bsE_seq; [eapply bsE_call; [reflexivity|evcr; reflexivity|reflexivity|exact CL|unfold cl; evcr; reflexivity]|
@@ -165,7 +169,7 @@ Proof.
   intros Hf Hp Hs Hr. cbn [fbody prog_sbdf_read_string]. unfold rs.
   destruct fv as [| fr fo | | | | |]; try contradiction. destruct sv as [| pr po | | | | |]; try contradiction.
   pose proof (read_int32_bs2 (VPtr fr fo) cell_token VUndef bv k sx m o I I Hs) as RI. rewrite Hr in RI.
-  pose proof (str_create_len_refused s' VNull int_max VUndef bv k m o (or_intror eq_refl)) as CL.
+  pose proof (str_create_len_refused s' hc VNull int_max VUndef bv k m o (or_intror eq_refl)) as CL.
   eexists. split.
   - pre RI. eapply bsE_seq; [eapply bsE_if; [evr; chk7; evr; reflexivity|reflexivity|apply bsE_skip]|].
     eapply bsE_seq_ret. eapply bsE_seq; [eapply bsE_call; [reflexivity|evcr; reflexivity|reflexivity|exact CL|unfold cl; evcr; reflexivity]|].
@@ -175,7 +179,7 @@ Qed.
 
 Theorem read_string_source sx m k : Forall byte sx ->
   exists f0, forall f, (f0 <= f)%nat -> exists fin st,
-    callH prog_env f prog_sbdf_read_string [tok; tok] m k sx = OReturn (VInt st) fin /\
+    callC prog_env f prog_sbdf_read_string [tok; tok] m k sx hc = OReturn (VInt st) fin /\
     match read_string false None sx with
     | Ok (bytes, rest) =>
         if k =? 0 then st = SBDF_ERROR_OUT_OF_MEMORY /\ inb fin = m
@@ -216,3 +220,5 @@ Proof.
     destruct (bsE_sound _ _ _ _ B) as (f0 & F). exists f0. intros f Hf. exists fin. eexists. split; [apply F; exact Hf|].
     split; [left; reflexivity|]. exists []. rewrite app_nil_r. exact P.
 Qed.
+
+End WithCells.
